@@ -4,6 +4,8 @@ import (
 	"fmt"
 	"go/types"
 	"os"
+	"path/filepath"
+	"regexp"
 	"sort"
 	"strings"
 
@@ -37,6 +39,7 @@ type Program struct {
 	SPkgs map[string]*ssa.Package // by package path
 	Funcs map[string]*ssa.Function
 	Tags  string
+	CParams map[string][]string // C function name -> parameter names
 }
 
 const ModPath = "github.com/onflow/crypto"
@@ -73,6 +76,17 @@ func Load(dir string, tags string) (*Program, error) {
 		}
 		P.SPkgs[pkgs[i].PkgPath] = sp
 	}
+	// opaque cgo value types: one cell holding a spec-level value
+	for _, sp := range P.SPkgs {
+		for name, m := range sp.Members {
+			if tm, ok := m.(*ssa.Type); ok && opaqueNames[name] {
+				if st, ok := tm.Type().Underlying().(*types.Struct); ok {
+					OpaqueStructs[st] = true
+				}
+			}
+		}
+	}
+	P.CParams = parseCPrototypes(dir)
 	// enumerate functions: members, methods of named types (T and *T), anonymous functions
 	for _, sp := range P.SPkgs {
 		for _, m := range sp.Members {
@@ -127,4 +141,52 @@ func (P *Program) SortedFuncKeys() []string {
 	}
 	sort.Strings(ks)
 	return ks
+}
+
+
+var reCProto = regexp.MustCompile(`(?m)^(?:static\s+|extern\s+|inline\s+)*[A-Za-z_][\w\s\*]*?[\s\*]([A-Za-z_]\w*)\s*\(([^;{)]*)\)\s*[;{]`)
+
+// parseCPrototypes extracts parameter names of the C functions declared or defined in the repository's own C files.
+func parseCPrototypes(dir string) map[string][]string {
+	out := map[string][]string{}
+	files, _ := filepath.Glob(filepath.Join(dir, "*.[ch]"))
+	for _, f := range files {
+		b, err := os.ReadFile(f)
+		if err != nil {
+			continue
+		}
+		for _, m := range reCProto.FindAllStringSubmatch(string(b), -1) {
+			name := m[1]
+			if name == "if" || name == "while" || name == "for" || name == "switch" || name == "return" || name == "sizeof" {
+				continue
+			}
+			var names []string
+			ok := true
+			params := strings.TrimSpace(m[2])
+			if params != "" && params != "void" {
+				for _, prm := range strings.Split(params, ",") {
+					prm = strings.TrimSpace(prm)
+					prm = strings.TrimSuffix(prm, "[]")
+					if i := strings.Index(prm, "["); i >= 0 {
+						prm = prm[:i]
+					}
+					j := len(prm)
+					for j > 0 && (prm[j-1] == '_' || prm[j-1] >= '0' && prm[j-1] <= '9' || prm[j-1] >= 'a' && prm[j-1] <= 'z' || prm[j-1] >= 'A' && prm[j-1] <= 'Z') {
+						j--
+					}
+					if j == len(prm) || j == 0 {
+						ok = false
+						break
+					}
+					names = append(names, prm[j:])
+				}
+			}
+			if ok {
+				if old, dup := out[name]; !dup || len(old) == 0 {
+					out[name] = names
+				}
+			}
+		}
+	}
+	return out
 }
